@@ -2,7 +2,7 @@
 NOTES = ("Runtime monitoring only: every verdict is an oracle observing executions of the real code built from /repo's working tree. Exit 0 = held on what was observed, "
          "exit 1 + VIOLATION line = refuted with replay file, exit 2 + INCONCLUSIVE line = nothing can be said (never folded into the others). "
          "Known findings: /verif/known_findings.json (2 open, both pinned by existing tests; the fix: commits are listed as fixed and suppress nothing). "
-         "Validation of the monitors: 163+ independent seeded changes in /verif/seeded (tools/runseeded.sh), every fix reversed (tools/regress.sh), behaviour-preserving refactors in "
+         "Validation of the monitors: 183 independent seeded changes in /verif/seeded (tools/runseeded.sh), every fix reversed (tools/regress.sh), behaviour-preserving refactors in "
          "/verif/neutral (tools/runneutral.sh), syntactic mutation screening (tools/mutscreen.py, mutscreen/SUMMARY.md). Thorough tier adds a coverage-based reach audit to the evidence.")
 HOOK_COMMITS = ["f9ac6f7", "155194a"]
 
@@ -11,7 +11,7 @@ add("C01", "exploration",
     "Held on 3M (quick) / 24M (thorough) generated Packet/Header values: every class combination of CSRC x extension kind x payload x padding, incl. blocks and payloads beyond 64 KiB.",
     "Trusts the harness generator/bridge (public API only) and its equality convention (nil == empty; ExtensionProfile ignored without X).")
 add("C02", "exploration",
-    "runtime monitor: recover() guard + structural invariants of accepted parses + fresh-vs-reused receiver twin (fields, len(Extensions), wire image after a follow-up SetExtension) over hostile byte-string streams",
+    "runtime monitor: recover() guard + structural invariants of accepted parses + fresh-vs-reused receiver twin (fields, len(Extensions), wire image after a follow-up SetExtension), read-loop receiver on one receive buffer, write-protected inputs (mprotect; a store faults and is reported) over hostile byte-string streams",
     "All strings <= 2 bytes, the extension-region alphabet walk and every value of the first two octets x boundary lengths exhaustively; 100k/2.5M streams of 8-32 hostile inputs through persistent receivers; inputs with exact and spare (canary) capacity.",
     "Non-termination is only detectable through the process watchdog + pinboard; beyond the exhaustive strata inputs are generated.")
 add("C03", "exploration",
@@ -35,11 +35,11 @@ add("C07", "exploration",
     "All 65 536 start values; the rollover count followed across every power-of-two magnitude (hook; thorough and hook-less builds also draw 2^32 values from one sequencer); 10k/200k short concurrent histories with the wrap inside and 3/100 long histories on the race-instrumented build with injected yields (client side and at an in-method hook); 800k/8M random sequencers.",
     "Only schedules the Go scheduler produced were observed; a race-free non-atomic change is found probabilistically (the evidence counts overlapping operations and distinct issue orders).")
 add("C08", "exploration",
-    "runtime monitor: recover() guard, MTU bound, input immutability (within len and in spare capacity), address-range overlap monitor (fragments vs caller buffers, fragments vs each other, hooked retained state), scribble twin across calls, interleaved unrelated instance, Go race detector tripwire",
+    "runtime monitor: recover() guard, MTU bound, input immutability (within len, in spare capacity, and write-protected inputs whose stores fault), address-range overlap monitor (fragments vs caller buffers, fragments vs each other, hooked retained state), scribble twin across calls, interleaved unrelated instance, Go race detector tripwire",
     "Every payloader/option x every MTU 0-16; 300k/8M instance runs of 1-4 calls (MTU may change between calls) over hostile, seeded and valid inputs incl. > 65535 fragments and LEB128-boundary packing; 6k/300k race-build tripwire runs.",
     "VP9 with nil InitialPictureIDFn is random by design (no twin compare); the race tripwire is secondary to the overlap and twin monitors.")
 add("C09", "exploration",
-    "runtime monitor: recover() guard, fresh-vs-reused receiver twin (result, error-ness, metadata, also after IsPartitionHead/Tail calls about other payloads), scribble twin + address-range overlap monitor on hooked retained state, interleaved unrelated receiver, exhaustive short strings",
+    "runtime monitor: recover() guard, fresh-vs-reused receiver twin (result, error-ness, metadata, also after IsPartitionHead/Tail calls about other payloads), scribble twin + address-range overlap monitor on hooked retained state, interleaved unrelated receiver, options flipped in mid-stream, write-protected inputs, exhaustive short strings",
     "Every byte string of length <=2 (thorough <=3) through 21 persistent receivers; 400k/10M hostile sequences of 1-20 payloads incl. payloads beyond 64 KiB; race-build tripwire on the stateful receivers.",
     "Metadata = exported fields / accessor values; compared when the fresh decode succeeds.")
 add("C10", "exploration",
